@@ -227,20 +227,21 @@ Proof.
   - apply IH; lia.
 Qed.
 
-Hypothesis Hstruct : forall size, length (gls size) = N.to_nat (gh size).
-Hypothesis Hheight : forall size, gh size <= 4096.
+Variable size : N.
+Hypothesis Hstruct : length (gls size) = N.to_nat (gh size).
+Hypothesis Hheight : gh size <= 4096.
 
-Lemma cpn_loop_fine : forall fuel size sorted result cache sibs, (measure sorted <= fuel)%nat ->
+Lemma cpn_loop_fine : forall fuel sorted result cache sibs, (measure sorted <= fuel)%nat ->
   fine (cpn_loop bh gls fuel size (gh size) sorted result cache sibs).
 Proof.
-  induction fuel as [|f IH]; intros size sorted result cache sibs Hm.
+  induction fuel as [|f IH]; intros sorted result cache sibs Hm.
   - destruct sorted as [|x t]; [exact I|]. rewrite measure_cons in Hm. pose proof (blen_pos x). lia.
   - destruct sorted as [|idx rest]; [exact I|]. cbn [cpn_loop nth_error].
     destruct (idx =? 2); [exact I|].
     destruct (match mget result idx with Some h => Some h | None => mget cache idx end) as [current|]; [|exact I].
     apply fine_bind; [apply nnl_fine|]. intros [ni li] Hn.
     destruct (nnl_inv _ _ _ _ Hn) as (q & Hq & Hlt & Hpos & Hli).
-    pose proof (Hheight size) as Hh. pose proof (Hstruct size) as Hs.
+    pose proof Hheight as Hh. pose proof Hstruct as Hs.
     assert (Ti : to_int (gh size) = Z.of_N (gh size)).
     { unfold to_int. destruct (N.ltb_spec (gh size) (2^63)); [reflexivity|lia]. }
     assert (Hq1 : (1 <= length (pbits q))%nat) by (destruct (pbits_head q) as [t E]; rewrite E; cbn; lia).
@@ -267,10 +268,10 @@ Proof.
            destruct sibs as [|s0 st]; cbn; exact I.
         -- intros [sh sibs'] _. destruct (mget result (idx / 2)); [destruct (negb _)|]; exact I.
       * intros [[result' cache'] sibs'] _. apply Hins.
-    + cbn [bind]. apply Hins.
+    + destruct (mget result (idx / 2)); [destruct (negb _); [exact I|]|]; cbn [bind]; apply Hins.
 Qed.
 
-Theorem calculate_path_nodes_total : forall qh size idxs sibs,
+Theorem calculate_path_nodes_total : forall qh idxs sibs,
   fine (calculate_path_nodes bh gh gls qh size idxs sibs).
 Proof.
   intros. unfold calculate_path_nodes.
@@ -280,11 +281,21 @@ Proof.
   apply cpn_loop_fine. lia.
 Qed.
 
-Theorem verify_proof_total : forall qh size idxs sibs root,
+Lemma idxs_valid_fine : forall sz h idxs, fine (idxs_valid sz h idxs).
+Proof.
+  intros sz h idxs. induction idxs as [|idx t IH]; cbn [idxs_valid]; [exact I|].
+  destruct (idx =? 0); [exact IH|].
+  pose proof (nnl_fine idx h) as F. destruct (new_node_location idx h) as [[ni li]| | |]; try contradiction; [|exact I].
+  destruct (_ <? ni); [exact I|exact IH].
+Qed.
+
+Theorem verify_proof_total : forall qh idxs sibs root,
   fine (verify_proof bh gh gls qh size idxs sibs root).
 Proof.
   intros. unfold verify_proof. destruct (size =? 0); [exact I|].
-  pose proof (calculate_path_nodes_total qh size idxs sibs) as H.
+  pose proof (idxs_valid_fine size (gh size) idxs) as Fv.
+  destruct (idxs_valid size (gh size) idxs) as [[|]| | |]; try contradiction; try exact I.
+  pose proof (calculate_path_nodes_total qh idxs sibs) as H.
   destruct (calculate_path_nodes bh gh gls qh size idxs sibs); try contradiction; [|exact I].
   destruct (mget a 2); exact I.
 Qed.
@@ -295,3 +306,22 @@ Theorem cpn_fuel_bound : forall sorted, Forall (fun x => x < 2^64) sorted ->
 Proof. intros. rewrite idx_sort_measure. apply measure_le. assumption. Qed.
 
 End Total.
+
+(* the hypotheses of the totality theorems hold for the integer instance, for every uint64 size *)
+Lemma gls_int_length : forall size, length (gls_int size) = N.to_nat (gh_int size).
+Proof. intros. unfold gls_int. rewrite map_length, seq_length. reflexivity. Qed.
+
+Lemma gh_int_bound : forall size, size < 2^64 -> gh_int size <= 4096.
+Proof.
+  intros size H. unfold gh_int. destruct (N.eq_dec size 0) as [->|Hz]; [cbn; lia|].
+  assert (N.log2_up size <= 64); [|lia].
+  apply N.log2_up_le_pow2; lia.
+Qed.
+
+Theorem verify_proof_total_int : forall bh qh size idxs sibs root, size < 2^64 ->
+  fine (verify_proof bh gh_int gls_int qh size idxs sibs root).
+Proof. intros. apply verify_proof_total; [apply gls_int_length|apply gh_int_bound; assumption]. Qed.
+
+Theorem calculate_path_nodes_total_int : forall bh qh size idxs sibs, size < 2^64 ->
+  fine (calculate_path_nodes bh gh_int gls_int qh size idxs sibs).
+Proof. intros. apply calculate_path_nodes_total; [apply gls_int_length|apply gh_int_bound; assumption]. Qed.
